@@ -203,6 +203,7 @@ impl Live {
             XmlNode::CData(t) => t.data().unwrap_or_default(),
             XmlNode::Comment(t) => t.data().unwrap_or_default(),
             XmlNode::PI(p) => p.data(),
+            XmlNode::ExpandedText(t) => t.data().unwrap_or_default(),
             _ => String::new(),
         }
     }
@@ -1187,6 +1188,49 @@ impl Space for DomBfs {
         }
         let ops = live.enabled(&self.alphabet, history);
         let base_obs = live.full_observation();
+        // C12: a violated invariant persists in every later state; it is attributed to the transition
+        // that introduces it (every bad state is reached from a good one, and the initial states are
+        // judged themselves), so only violations absent from the predecessor state are reported.
+        let base_nav: std::collections::BTreeSet<(String, String)> = if self.monitors.tree {
+            match guard(|| live.nav_violations()) {
+                Ok(v) => v.into_iter().collect(),
+                Err(_) => Default::default(),
+            }
+        } else {
+            Default::default()
+        };
+        // C14: same attribution rule; monitors of the frontier state itself
+        let base_order: std::collections::BTreeSet<String> = if self.monitors.order {
+            let fs = crate::checks::c14::order_monitors(&live, self.order_queries);
+            if history.is_empty() {
+                for f in &fs {
+                    sink.finding(Finding {
+                        sig: format!("{}/initial-state", f.0),
+                        what: f.1.clone(),
+                        case: self.case_text(*doc, history, None),
+                        expected: f.2.clone(),
+                        observed: f.3.clone(),
+                    });
+                }
+            }
+            fs.into_iter().map(|f| f.0).collect()
+        } else {
+            Default::default()
+        };
+        if self.monitors.tree && history.is_empty() {
+            let mut seen = std::collections::BTreeSet::new();
+            for (kind, detail) in &base_nav {
+                if seen.insert(kind.clone()) {
+                    sink.finding(Finding {
+                        sig: format!("{}/initial-state", kind),
+                        what: format!("navigation views disagree on a freshly parsed document ({})", kind),
+                        case: self.case_text(*doc, history, None),
+                        expected: "child_nodes / parent_node / first_child / last_child / siblings agree".into(),
+                        observed: detail.clone(),
+                    });
+                }
+            }
+        }
         for op in ops {
             // a fresh replay is needed only if the previous call changed the state
             if live.full_observation() != base_obs {
@@ -1235,6 +1279,9 @@ impl Space for DomBfs {
                     Ok(vs) => {
                         let mut seen = std::collections::BTreeSet::new();
                         for (kind, detail) in vs {
+                            if base_nav.contains(&(kind.clone(), detail.clone())) {
+                                continue;
+                            }
                             if !seen.insert(kind.clone()) {
                                 continue;
                             }
@@ -1256,9 +1303,12 @@ impl Space for DomBfs {
                     }),
                 }
             }
-            if self.monitors.order && !panicked {
+            if self.monitors.order && !panicked && rep.changed {
                 sink.count("validated", 1);
                 for f in crate::checks::c14::order_monitors(&live, self.order_queries) {
+                    if base_order.contains(&f.0) {
+                        continue;
+                    }
                     sink.finding(Finding {
                         sig: format!("{}/after:{}/{}", f.0, op.method(), feats),
                         what: f.1,
